@@ -124,3 +124,210 @@ theorem run_inv2 (s : St) (sched : List Nat) (h : Inv2 s) : Inv2 (run true s sch
   | cons a rest ih => simpa [run] using ih (step true s a) (step_inv2 s a h)
 
 end GSync
+
+/-! ## the property's conservative lower bound of the count
+
+"increments that have returned plus decrements that have merely been called" -/
+namespace GSync
+
+def negSum (l : List Int) : Int := (l.map (fun d => min d 0)).sum
+def posSum (l : List Int) : Int := (l.map (fun d => max d 0)).sum
+
+/-- lower bound contributed by one goroutine: every decrement it has begun, every increment it
+has completed (`begun` is newest first; while a call is in flight its delta is the head) -/
+def lbT (t : Thread) : Int :=
+  negSum t.begun + posSum (if inAdd t.pc then t.begun.tail else t.begun)
+
+def lb (ts : List Thread) : Int := (ts.map lbT).sum
+
+theorem negSum_add_posSum (l : List Int) : negSum l + posSum l = l.sum := by
+  induction l with
+  | nil => simp [negSum, posSum]
+  | cons d l ih =>
+    simp only [negSum, posSum, List.map_cons, List.sum_cons] at ih ⊢
+    omega
+
+theorem negSum_le (l : List Int) : negSum l ≤ 0 := by
+  induction l with
+  | nil => simp [negSum]
+  | cons d l ih => simp only [negSum, List.map_cons, List.sum_cons] at ih ⊢; omega
+
+theorem lbT_le (t : Thread) (h : BA t) : lbT t ≤ t.added.sum := by
+  unfold BA at h
+  unfold lbT
+  cases hp : t.pc <;> simp only [hp] at h <;> simp only [inAdd, if_true, if_false, Bool.false_eq_true]
+  case aLock d =>
+    rw [h]; simp only [List.tail_cons]
+    have := negSum_add_posSum t.added
+    simp only [negSum, List.map_cons, List.sum_cons] at this ⊢; omega
+  case aAdd d =>
+    rw [h]; simp only [List.tail_cons]
+    have := negSum_add_posSum t.added
+    simp only [negSum, List.map_cons, List.sum_cons] at this ⊢; omega
+  case idle => rw [h]; exact Int.le_of_eq (negSum_add_posSum _)
+  case wCount => rw [h]; exact Int.le_of_eq (negSum_add_posSum _)
+  case wChan c => rw [h]; exact Int.le_of_eq (negSum_add_posSum _)
+  case cLoad => rw [h]; exact Int.le_of_eq (negSum_add_posSum _)
+  all_goals
+    rw [h]
+    cases ha : t.added with
+    | nil => simp [negSum, posSum]
+    | cons d rest =>
+      simp only [List.tail_cons]
+      have := negSum_add_posSum rest
+      simp only [negSum, posSum, List.map_cons, List.sum_cons] at this ⊢; omega
+
+theorem sum_map_le (f g : Thread → Int) (l : List Thread) (h : ∀ t ∈ l, f t ≤ g t) :
+    (l.map f).sum ≤ (l.map g).sum := by
+  induction l with
+  | nil => simp
+  | cons a l ih =>
+    simp only [List.map_cons, List.sum_cons]
+    have h1 := h a (by simp)
+    have h2 := ih (fun t ht => h t (by simp [ht]))
+    omega
+
+/-- In every state satisfying the book-keeping invariant the conservative lower bound is at most
+the counter. -/
+theorem lb_le_count_of_inv2 (s : St) (h : Inv2 s) : lb s.threads ≤ s.sh.count := by
+  rw [h.cnt, addedSum, lb]
+  apply sum_map_le
+  intro t ht
+  obtain ⟨i, hi⟩ := List.mem_iff_getElem?.1 ht
+  exact lbT_le t (h.ba i t hi)
+
+end GSync
+
+/-! ## a syntactic discipline that implies `NonNeg`
+
+If every goroutine only decrements what it has itself incremented before (all prefix sums of
+its own deltas are non-negative), the counter never goes negative under any schedule. -/
+namespace GSync
+
+def addsOf (p : List Call) : List Int :=
+  p.filterMap (fun c => match c with | .add d => some d | _ => none)
+
+@[simp] theorem addsOf_nil : addsOf [] = [] := rfl
+@[simp] theorem addsOf_add (d : Int) (p : List Call) : addsOf (.add d :: p) = d :: addsOf p := rfl
+@[simp] theorem addsOf_wait (p : List Call) : addsOf (.wait :: p) = addsOf p := rfl
+@[simp] theorem addsOf_count (p : List Call) : addsOf (.count :: p) = addsOf p := rfl
+
+def PrefixNonNeg (l : List Int) : Prop := ∀ k, 0 ≤ (l.take k).sum
+
+def SelfBalanced (progs : List (List Call)) : Prop := ∀ p ∈ progs, PrefixNonNeg (addsOf p)
+
+/-- the delta of an `Add` that has begun but not yet updated the counter -/
+def inflight : PC → List Int
+  | .aLock d | .aAdd d => [d]
+  | _ => []
+
+/-- the goroutine's program is: deltas applied so far, the one in flight, the calls to come -/
+def Rel3 (p : List Call) (t : Thread) : Prop :=
+  addsOf p = t.added.reverse ++ inflight t.pc ++ addsOf t.prog
+
+theorem enter_Rel3 (p : List Call) (zc : Nat) (t : Thread)
+    (h : addsOf p = t.added.reverse ++ addsOf t.prog) : Rel3 p (enter true zc t) := by
+  unfold enter Rel3
+  split
+  · rename_i hp; rw [hp] at h; simp [inflight, h, hp]
+  · rename_i d rest hp; rw [hp] at h; simp [inflight, h]
+  · rename_i rest hp; rw [hp] at h; simp [inflight, h]
+  · rename_i rest hp; rw [hp] at h; simp [inflight, h]
+
+theorem tstep_Rel3 (p : List Call) (sh : Shared) (i : Nat) (t : Thread) (h : Rel3 p t) :
+    Rel3 p (tstep true sh i t).2.1 := by
+  unfold Rel3 at h
+  cases hp : t.pc with
+  | idle => simp only [hp] at h; simpa [tstep, hp, Rel3] using h
+  | aLock d => simp only [hp, inflight] at h; simp only [tstep, hp]; cases sh.lock <;> simp [Rel3, hp, inflight, h]
+  | aAdd d =>
+    simp only [hp, inflight] at h
+    simp only [tstep, hp, finishAdd]
+    by_cases h1 : sh.count + d = 0
+    · rw [if_pos h1]; simp [Rel3, inflight, h]
+    · by_cases h2 : 0 < d ∧ sh.count + d = d
+      · rw [if_neg h1, if_pos h2]; simp [Rel3, inflight, h]
+      · rw [if_neg h1, if_neg h2]; simp [Rel3, inflight, h]
+  | aSwap v => simp only [hp, inflight] at h; simp only [tstep, hp, finishAdd]; split <;> simp [Rel3, inflight, h]
+  | aCloseOld v ch => simp only [hp, inflight] at h; simp [tstep, hp, finishAdd, Rel3, inflight, h]
+  | aCAS v => simp only [hp, inflight] at h; simp only [tstep, hp, finishAdd]; split <;> simp [Rel3, inflight, h]
+  | aCloseNew v ch => simp only [hp, inflight] at h; simp [tstep, hp, finishAdd, Rel3, inflight, h]
+  | aUnlock v =>
+    simp only [hp, inflight] at h; simp only [tstep, hp]
+    exact enter_Rel3 p _ _ (by simpa using h)
+  | wCount => simp only [hp, inflight] at h; simp [tstep, hp, Rel3, inflight, h]
+  | wChan c =>
+    simp only [hp, inflight] at h
+    simp only [tstep, hp]
+    split
+    · exact enter_Rel3 p _ _ (by simpa using h)
+    · simp [Rel3, inflight, h]
+  | cLoad =>
+    simp only [hp, inflight] at h; simp only [tstep, hp]
+    exact enter_Rel3 p _ _ (by simpa using h)
+
+def Inv3 (progs : List (List Call)) (s : St) : Prop :=
+  ∀ (i : Nat) (t : Thread), s.threads[i]? = some t → ∃ p, progs[i]? = some p ∧ Rel3 p t
+
+theorem init_inv3 (progs : List (List Call)) : Inv3 progs (init true progs) := by
+  intro i t ht
+  simp only [init, List.getElem?_map] at ht
+  cases hp : progs[i]? with
+  | none => simp [hp] at ht
+  | some p =>
+    simp [hp] at ht; subst ht
+    exact ⟨p, rfl, enter_Rel3 p _ _ (by simp)⟩
+
+theorem step_inv3 (progs : List (List Call)) (s : St) (i : Nat) (h : Inv3 progs s) :
+    Inv3 progs (step true s i) := by
+  unfold step stepL
+  cases ht : s.threads[i]? with
+  | none => simpa [ht] using h
+  | some t =>
+    simp only [ht]
+    have hi : i < s.threads.length := (List.getElem?_eq_some_iff.1 ht).1
+    intro j u hj
+    simp only [List.getElem?_set] at hj
+    by_cases hji : i = j
+    · subst hji; simp [hi] at hj; subst hj
+      obtain ⟨p, hp, hr⟩ := h i t ht
+      exact ⟨p, hp, tstep_Rel3 p _ _ _ hr⟩
+    · simp [hji] at hj; exact h j u hj
+
+theorem run_inv3 (progs : List (List Call)) (s : St) (sched : List Nat) (h : Inv3 progs s) :
+    Inv3 progs (run true s sched) := by
+  induction sched generalizing s with
+  | nil => simpa [run] using h
+  | cons a rest ih => simpa [run] using ih (step true s a) (step_inv3 progs s a h)
+
+theorem sum_reverse (l : List Int) : l.reverse.sum = l.sum := by
+  induction l with
+  | nil => rfl
+  | cons a l ih => simp [List.sum_append, ih]; omega
+
+/-- Self-balanced client programs never drive the counter negative, under any schedule. -/
+theorem selfBalanced_nonneg (progs : List (List Call)) (hb : SelfBalanced progs) (sched : List Nat) :
+    NonNeg true (init true progs) sched := by
+  intro pre _
+  have h2 := run_inv2 _ pre (init_inv2 progs)
+  have h3 := run_inv3 progs _ pre (init_inv3 progs)
+  rw [h2.cnt, addedSum]
+  suffices h : ∀ t ∈ (run true (init true progs) pre).threads, 0 ≤ t.added.sum by
+    generalize (run true (init true progs) pre).threads = ts at h
+    induction ts with
+    | nil => simp
+    | cons a l ih =>
+      simp only [List.map_cons, List.sum_cons]
+      have := h a (by simp)
+      have := ih (fun t ht => h t (by simp [ht]))
+      omega
+  intro t ht
+  obtain ⟨i, hi⟩ := List.mem_iff_getElem?.1 ht
+  obtain ⟨p, hp, hr⟩ := h3 i t hi
+  have hpn := hb p (List.mem_of_getElem? hp) t.added.length
+  unfold Rel3 at hr
+  rw [hr, List.append_assoc, List.take_left' (by simp)] at hpn
+  rw [sum_reverse] at hpn
+  exact hpn
+
+end GSync
